@@ -706,7 +706,7 @@ def get_mypy_type(node: Node) -> Type | SymbolNode | None:
             if (ty := get_mypy_type(expr)) and isinstance(ty, Type):
                 return _build_placeholder_callable(ty)
 
-        case AssignmentExpr(target=expr):
+        case AssignmentExpr(value=expr):
             return get_mypy_type(expr)
 
     return None
